@@ -5,6 +5,7 @@ package e2e
 import (
 	"bytes"
 	"fmt"
+	"hash/fnv"
 	"os"
 	"strings"
 	"testing"
@@ -29,6 +30,44 @@ type c03Case struct {
 	Prefix uint64 `json:"prefix,omitempty"`
 	Seg    uint64 `json:"seg,omitempty"`
 	Start  uint64 `json:"start,omitempty"`
+	// SkipSeed != 0: heights are not contiguous along a branch (chains whose block numbers are slots): a block
+	// chosen by the seed is numbered parent+2 instead of parent+1
+	SkipSeed uint64 `json:"skip_seed,omitempty"`
+}
+
+// applySkips renumbers the blocks (given parents first) so that some of them skip a height.
+func applySkips(blocks []world.ForkBlock, seed uint64) []world.ForkBlock {
+	if seed == 0 || len(blocks) == 0 {
+		return blocks
+	}
+	orig := map[string]world.ForkBlock{}
+	newNum := map[string]uint64{blocks[0].ID: blocks[0].Num}
+	for _, b := range blocks {
+		orig[b.ID] = b
+	}
+	out := []world.ForkBlock{blocks[0]}
+	for _, b := range blocks[1:] {
+		h := fnv.New64a()
+		fmt.Fprintf(h, "%d/%s", seed, b.ID)
+		skip := uint64(0)
+		if h.Sum64()%3 == 0 {
+			skip = 1
+		}
+		n := newNum[b.Parent] + 1 + skip
+		newNum[b.ID] = n
+		nb := b
+		nb.Num = n
+		// the LIB seen by the block: the same ancestor as before, under its new number
+		nb.LibNum = newNum[blocks[0].ID]
+		for a := b.Parent; a != ""; a = orig[a].Parent {
+			if orig[a].Num <= b.LibNum {
+				nb.LibNum = newNum[a]
+				break
+			}
+		}
+		out = append(out, nb)
+	}
+	return out
 }
 
 // prefixSteps are the final blocks 0..n-1 below the fork history.
@@ -229,11 +268,12 @@ func runChainReference(p pgen.Prog, output string, chain []world.Step, ref *c03R
 func checkC03(c c03Case) (*ev.Failure, c03Stats) {
 	var st c03Stats
 	P, start, seg := c.Prefix, uint64(1), uint64(1_000_000)
-	blocks := c.Blocks
+	blocks := applySkips(c.Blocks, c.SkipSeed)
 	if P > 0 {
 		start, seg = c.Start, c.Seg
+		src := blocks
 		blocks = nil
-		for i, b := range c.Blocks {
+		for i, b := range src {
 			b.Num += P
 			b.LibNum += P
 			if i == 0 {
@@ -491,12 +531,18 @@ func stepName(s bstream.StepType) string {
 
 func TestC03Forks(t *testing.T) {
 	r := ev.Get("C03", "Forks")
-	r.Rule = "rapid: fork trees of 2..4 branches over 4..9 heights (branches fork from earlier branches, same block ids re-applied on flip-flops), arrival order a random interleaving with bursts, LIB progress with lag 2/3/4/never, turned into new/undo/irreversible/stalled signals by the real bstream/forkable; stores whose operations depend on the block id (10..40% delete_prefix); a dev-mode and a production-mode tier1 request whose start equals the hand-off; oracle (a) after every new/undo step every store is typed-equal, with exact size, to the stores of a fork-free execution of the current canonical chain (memoised per chain prefix), (b) a simulated client that drops blocks above last_valid_block on undo always knows the designated block, never sees two blocks of one height without an undo, and ends with exactly the outputs of the final canonical chain; non-trivial = the history undoes a block whose deltas include a delete or a size-changing update"
+	r.Rule = "rapid: fork trees of 2..4 branches over 4..9 heights (branches fork from earlier branches, same block ids re-applied on flip-flops), arrival order a random interleaving with bursts, LIB progress with lag 2/3/4/never, in one case out of three heights skipped along a branch (a block numbered parent+2), turned into new/undo/irreversible/stalled signals by the real bstream/forkable; stores whose operations depend on the block id (10..40% delete_prefix); a dev-mode and a production-mode tier1 request whose start equals the hand-off; oracle (a) after every new/undo step every store is typed-equal, with exact size, to the stores of a fork-free execution of the current canonical chain (memoised per chain prefix), (b) a simulated client that drops blocks above last_valid_block on undo always knows the designated block, never sees two blocks of one height without an undo, and ends with exactly the outputs of the final canonical chain; non-trivial = the history undoes a block whose deltas include a delete or a size-changing update"
 	rapid.Check(t, func(rt *rapid.T) {
 		c := genC03(rt)
+		if rapid.IntRange(0, 2).Draw(rt, "skips") == 0 {
+			c.SkipSeed = rapid.Uint64Range(1, 1<<30).Draw(rt, "skipseed")
+		}
 		r.Begin(c)
 		f, st := checkC03(c)
 		cl := []string{fmt.Sprintf("undos<=%d", bucketInt(st.undos))}
+		if c.SkipSeed != 0 {
+			cl = append(cl, "heights-skipped")
+		}
 		if st.flipflop > 0 {
 			cl = append(cl, "flip-flop(block re-applied)")
 		}
@@ -517,9 +563,15 @@ func TestC03ForksBackfill(t *testing.T) {
 		c.Seg = rapid.Uint64Range(2, 4).Draw(rt, "seg")
 		c.Prefix = rapid.Uint64Range(2*c.Seg, 3*c.Seg+2).Draw(rt, "prefix")
 		c.Start = rapid.Uint64Range(1, c.Prefix+1).Draw(rt, "start")
+		if rapid.IntRange(0, 2).Draw(rt, "skips") == 0 {
+			c.SkipSeed = rapid.Uint64Range(1, 1<<30).Draw(rt, "skipseed")
+		}
 		r.Begin(c)
 		f, st := checkC03(c)
 		cl := []string{fmt.Sprintf("undos<=%d", bucketInt(st.undos)), fmt.Sprintf("backfill-jobs<=%d", bucketInt(st.backfillJobs))}
+		if c.SkipSeed != 0 {
+			cl = append(cl, "heights-skipped")
+		}
 		if st.flipflop > 0 {
 			cl = append(cl, "flip-flop(block re-applied)")
 		}
